@@ -1,6 +1,7 @@
 SPECIFICATION Spec
 CONSTANTS MaxDepth = 2
  FixSkipLine = TRUE
+ FixLineInGroup = TRUE
  Emit = TRUE
  Look = TRUE
 VIEW View
